@@ -15,7 +15,31 @@ def run(tier):
     for la in range(0, 3 if q else 4):
         for lb in range(0, 3 if q else 4):
             jobs.append(dict(base, harness="VerifC08Intersect", params={"la": la, "lb": lb}))
+    import random
+    rnd = random.Random(20261003)
+    nsk = 40 if q else 600
+    rbase = dict(base, unwind=400, max_steps=50_000_000, max_depth=200, timeout_s=600 if q else 2400, witness_every=50,
+                 summarise=SUM + ["deps.dev/util/semver.compare", "(deps.dev/util/resolve/internal/attr.Set).Compare", "(*deps.dev/util/semver.Constraint).Match",
+                                  "(*deps.dev/util/semver.Constraint).MatchVersionPrerelease", "(*deps.dev/util/semver.Constraint).MatchVersion"])
+    for i in range(nsk):
+        p = {}
+        targets = [1, 2, 3]
+        rnd.shuffle(targets)  # at most one requirement per (version, package), as the property's domain says
+        for s in range(3):
+            p["r%dt" % s] = targets[s] if (s == 0 or rnd.random() < 0.7) else 0
+            p["r%dr" % s] = rnd.randrange(8)
+            p["r%dm" % s] = rnd.choice([0, 0, 1, 2, 3])
+        for pi in range(3):
+            nv = rnd.choice([1, 2] if q else [1, 2, 3])
+            p["nv%d" % pi] = nv
+            p["pre%d" % pi] = rnd.choice([-1, -1] + list(range(nv)))
+            for vi in range(3):
+                p["p%d%dt" % (pi, vi)] = rnd.choice([0, 0, 1, 2, 3])
+                p["p%d%dr" % (pi, vi)] = rnd.randrange(8)
+                p["p%d%dm" % (pi, vi)] = rnd.choice([0, 0, 0, 1, 2])
+        jobs.append(dict(rbase, harness="VerifC08Resolve", params=p))
     return run_property("C08", tier, [Group("rpypi", jobs)],
-                        required_covers=["puts done", "sets done", "non-empty intersection", "empty intersection", "something filtered"],
-                        assumptions=["unit lemmas only (criteria, versionMap, intersect, filterSlice, copy independence); the whole-resolution clauses are not decided here"],
+                        required_covers=["puts done", "sets done", "non-empty intersection", "empty intersection", "something filtered", "resolved", "a graph with several nodes", "true marker checked", "false marker checked"],
+                        assumptions=["unit lemmas: criteria, versionMap, intersect, filterSlice, copy independence",
+                                     "whole resolver: universe skeletons (3 packages + root, <=3 versions, one requirement slot per version, three for the root, markers over python_version/os_name/extra) are a fixed pseudo-random sample; version numbers, specifier numbers and marker thresholds are symbolic digits in 1..4; requested extras are not generated"],
                         bounds={"entries": 3 if q else 4})
